@@ -19,6 +19,7 @@ import (
 	"crypto/sha256"
 	"encoding/hex"
 	"encoding/json"
+	"regexp"
 	"sort"
 	"strconv"
 	"strings"
@@ -28,8 +29,15 @@ import (
 	"wa-lang.org/wa/internal/parser"
 	"wa-lang.org/wa/internal/scanner"
 	"wa-lang.org/wa/internal/token"
+	"wa-lang.org/wa/internal/wat/watutil"
+	"wa-lang.org/wa/internal/wazero"
 	"wa-lang.org/wa/internal/zz_verif/astdump"
 	"wa-lang.org/wa/internal/zz_verif/vh"
+)
+
+var (
+	numRe = regexp.MustCompile(`-?\b\d+\b`)
+	posRe = regexp.MustCompile(`\d+:\d+`)
 )
 
 func sha(s string) string {
@@ -215,11 +223,33 @@ func main() {
 			b, _ := json.Marshal(astdump.Comments(file))
 			return "ok " + vh.Hex(b)
 		case "wat":
-			_, wat, _, err := api.BuildFile(api.DefaultConfig(), f[1], src)
+			// the WAT embeds "file:line:col" strings for run-time panics, so the text of a program and of
+			// its formatted version legitimately differ in the data section (and in every address behind
+			// it); compared are: the instruction skeleton (data segments dropped, integer literals masked)
+			// and what the compiled module prints when run.
+			mainFunc, wat, fsetBytes, err := api.BuildFile(api.DefaultConfig(), f[1], src)
 			if err != nil {
 				return "err " + vh.Hex([]byte(firstLine(err.Error())))
 			}
-			return "ok " + sha(string(wat))
+			var sk strings.Builder
+			for _, l := range strings.Split(string(wat), "\n") {
+				if strings.HasPrefix(strings.TrimSpace(l), "(data") {
+					continue
+				}
+				sk.WriteString(numRe.ReplaceAllString(l, "N"))
+				sk.WriteByte('\n')
+			}
+			res := "ok skel=" + sha(sk.String()) + " exact=" + sha(string(wat))
+			wasmBytes, err := watutil.Wat2Wasm(f[1], wat)
+			if err != nil {
+				return res + " run=wat2wasm-error"
+			}
+			stdout, stderr, err := wazero.RunWasm(f[1], wasmBytes, fsetBytes, mainFunc)
+			st := "ok"
+			if err != nil {
+				st = "err"
+			}
+			return res + " run=" + st + ":" + sha(posRe.ReplaceAllString(string(stdout)+"\x00"+string(stderr), "L:C"))
 		}
 		return "bad-op"
 	})
